@@ -151,7 +151,7 @@ def run_inproc(argv, world_json=None, trace=None, plan=None, cwd=None,
         ztr_monitor.reset_run_state()
     except ImportError:
         pass
-    lock = threading.Lock()
+    lock = threading.RLock()
     rec_out = Recorder(res.log, 'out', lock)
     rec_err = Recorder(res.log, 'err', lock)
     old_out, old_err, old_in = sys.stdout, sys.stderr, sys.stdin
